@@ -193,7 +193,18 @@ func c14Cases(tier string) []c14Case {
 			}
 		}
 	}
-	srcArgs := []string{"/", "a", "a/f", "b", "*", "a/*", "l", "l/f", "c", "?", "a/..", "c/../a/..", "a/../../b", "l/a/f", "l/a", "l/a/*"}
+	// two directories whose contents merge when both match a wildcard: the first brings a link to an outside file
+	// (and one to an outside directory), the second a regular file and a directory at the same relative paths
+	T := fsmodel.T0
+	merge := append(srcBase.Clone(),
+		fsmodel.Node{Path: "m1", Kind: fsmodel.Dir, Perm: 0755, Mtime: T}, fsmodel.Node{Path: "m1/sub", Kind: fsmodel.Dir, Perm: 0755, Mtime: T},
+		fsmodel.Node{Path: "m1/sub/x", Kind: fsmodel.Symlink, Perm: 0777, Mtime: T, Link: "/outside/f"}, fsmodel.Node{Path: "m1/sub/y", Kind: fsmodel.Symlink, Perm: 0777, Mtime: T, Link: "/outside/d"},
+		fsmodel.Node{Path: "m2", Kind: fsmodel.Dir, Perm: 0755, Mtime: T}, fsmodel.Node{Path: "m2/sub", Kind: fsmodel.Dir, Perm: 0755, Mtime: T},
+		fsmodel.Node{Path: "m2/sub/x", Kind: fsmodel.File, Perm: 0644, Mtime: T + 5, Data: []byte("SRC:m2/sub/x")}, fsmodel.Node{Path: "m2/sub/y", Kind: fsmodel.Dir, Perm: 0755, Mtime: T},
+		fsmodel.Node{Path: "m2/sub/y/g", Kind: fsmodel.File, Perm: 0644, Mtime: T + 6, Data: []byte("SRC:m2/sub/y/g")})
+	merge.Sort()
+	srcV = append(srcV, merge)
+	srcArgs := []string{"/", "a", "a/f", "b", "*", "a/*", "l", "l/f", "c", "?", "a/..", "c/../a/..", "a/../../b", "l/a/f", "l/a", "l/a/*", "m?", "m?/sub", "*/sub"}
 	dstArgs := []string{"/", "a", "a/f", "x", "new", "l", "l/sub", "x/", "l/"}
 	var pairs [][2]fsmodel.Tree
 	for _, s := range srcV {
